@@ -825,3 +825,5 @@ B("b63", ["C13", "C16"], DEMOOR, "jnp.hstack([0, jnp.arange(0.5, self.max_demand
   "cdf grid with the leading zero as a one-element vector")
 B("b64", ["C13", "C16"], DEMOOR, "        demand_probabilities = demand_probabilities.at[-1].add(\n            1 - demand_probabilities.sum()\n        )",
   "        demand_probabilities = demand_probabilities.at[-1].set(\n            1 - demand_probabilities[:-1].sum()\n        )", "tail folded by setting the last entry to one minus the others")
+B("b65", ["C02", "C01", "C04", "C06", "C05"], VI, "        return (single_step_rewards + gamma * next_state_values).dot(probs)",
+  "        return probs @ (single_step_rewards + next_state_values * gamma)", "expectation written with the @ operator")
